@@ -250,28 +250,34 @@ def adjust (d : Dom α) (prec : α) (vals : List α) : List α :=
   let v2 := if !d.inclHi then adjHigh (d.hi - prec) (d.hi - prec) v1.reverse else adjHigh d.hi (d.hi - prec) v1.reverse
   v2.reverse
 
-/-- the `while` loop of cpp:438-442: first `v + f*j*precision` not equivalent to a key -/
-def searchFree (prec hi v : α) (m : TMap α) : Nat → Int → Int → Option α
+/-- `std::numeric_limits<double>::epsilon()` = 2^-52 -/
+def dblEpsilon : α := Scalar.ofRat 1 4503599627370496
+
+/-- the separation step (repair): the precision, but at least four spacings of the doubles
+around the value: `std::max(precision(), 4 * epsilon * std::abs(v))` -/
+def sepStep (prec v : α) : α := Scalar.max prec (Scalar.ofInt 4 * dblEpsilon * Scalar.abs v)
+
+/-- the `while` loop of cpp:438-442: first `v + f*j*step` not equivalent to a key -/
+def searchFree (prec step hi v : α) (m : TMap α) : Nat → Int → Int → Option α
   | 0, _, _ => none
   | fuel + 1, j, f =>
-    let c := v + Scalar.ofInt (f * j) * prec
+    let c := v + Scalar.ofInt (f * j) * step
     if (TMap.find? prec c m).isSome then
       let j' := j + 1
-      let f' : Int := if Scalar.geb (v + Scalar.ofInt (f * j') * prec) hi then -1 else 1
-      searchFree prec hi v m fuel j' f'
+      let f' : Int := if Scalar.geb (v + Scalar.ofInt (f * j') * step) hi then -1 else 1
+      searchFree prec step hi v m fuel j' f'
     else some c
 
-/-- fuel of `searchFree`.  In exact arithmetic every key is equivalent to at most three candidates
-on each side, so `6 * size + 6` turns suffice; in doubles a step `j * precision` below the
-spacing of the doubles around `v` is absorbed and the C++ loop runs until `j * precision` reaches
-that spacing (thousands of turns for precision 1e-20): the fuel is generous. -/
+/-- fuel of `searchFree`.  Every key is equivalent to at most three candidates on each side (the
+step is at least the precision), so `6 * size + 6` turns suffice in exact arithmetic; the fuel is
+generous. -/
 def searchFuel (m : TMap α) : Nat := 6 * m.length + 1000000
 
 /-- one turn of the loop cpp:432-447 -/
 def insertDistinct (prec hi p : α) (m : TMap α) (v : α) : Option (TMap α) :=
   if (TMap.find? prec v m).isSome then
     let f : Int := if Scalar.geb (v + Constants.TINY) hi then -1 else 1
-    (searchFree prec hi v m (searchFuel m) 1 f).map (fun c => TMap.assign prec c p m)
+    (searchFree prec (sepStep prec v) hi v m (searchFuel m) 1 f).map (fun c => TMap.assign prec c p m)
   else some (TMap.assign prec v p m)
 
 def insertAll (prec hi p : α) : TMap α → List α → Option (TMap α)
